@@ -1115,6 +1115,16 @@ def _check_callback_stateless(ctx: Ctx, outer: FuncInfo, rule: str) -> None:
                 if isinstance(x.func, ast.Attribute) and x.func.attr in ("append", "extend", "pop", "remove", "insert", "clear", "update", "add", "popleft") \
                         and captured(x.func.value):
                     bad.append((f, x, f"changes the captured `{x.func.value.id}` in place"))
+    # the protected spans and the substitution speak about the same string: spans found in the whole text cannot be compared
+    # with match offsets of a substitution that runs over a piece of it (a line, a slice)
+    scans = [c for c in ast.walk(outer.node) if isinstance(c, ast.Call) and isinstance(c.func, ast.Attribute) and c.func.attr == "finditer" and len(c.args) == 1]
+    subs = [c for c in ast.walk(outer.node) if isinstance(c, ast.Call) and isinstance(c.func, ast.Attribute) and c.func.attr in ("sub", "subn") and len(c.args) >= 2
+            and isinstance(c.args[0], (ast.Name, ast.Attribute, ast.Lambda))]
+    if scans and subs and any(isinstance(x, ast.Call) and isinstance(x.func, ast.Attribute) and x.func.attr in ("span", "start", "end") for f in nested for x in ast.walk(f.node)):
+        a_, b_ = norm(scans[0].args[0]), norm(subs[0].args[1])
+        ctx.ob(rule, f"{outer.qual} :: tag spans and substitution run over the same string", a_ == b_,
+               f"the spans come from a scan of `{a_}`, the substitution (whose match offsets they are compared with) runs over `{b_}`: "
+               "offsets into different strings do not compare, a tag on a later line is no longer recognised as protected", where(outer, subs[0]))
     ctx.ob(rule, f"{outer.qual} :: the replacement decision does not depend on earlier matches", not bad,
            "every match is judged on its own (against all tag spans): a cursor or other state carried from one match to the next makes the "
            "result depend on the order and position of unrelated matches; " + "; ".join(f"{f.name}: {why}" for f, _x, why in bad),
